@@ -104,8 +104,34 @@ def native_correctable(dname, cname, size, maxw=None):
     return None, count
 
 
+def native_weights(direction, defo, prate):
+    """the weights handed to matching are the log-likelihood ratios of the per-qubit flip marginals of the real noise model (positive iff marginal < 1/2)"""
+    from panqec.error_models import PauliErrorModel
+    from panqec.codes import Toric2DCode
+    code = Toric2DCode(2, 3)
+    em = PauliErrorModel(*direction, deformation_name=defo)
+    wx, wz = em.get_weights(code, prate)
+    pi, px, py, pz = em.probability_distribution(code, prate)
+    for nm, w, marg in (('x', wx, px + py), ('z', wz, pz + py)):
+        for q in range(code.n):
+            m_ = float(marg[q])
+            if 0 < m_ < 1:
+                want = -np.log(m_ / (1 - m_))
+                if not np.isclose(float(w[q]), want, rtol=1e-6, atol=1e-8):
+                    return 'weight_%s[%d] = %r, the log-likelihood ratio of the flip marginal %r is %r' % (nm, q, float(w[q]), m_, float(want))
+                if (float(w[q]) > 0) != (m_ < 0.5):
+                    return 'weight_%s[%d] = %r has the wrong sign for flip marginal %r' % (nm, q, float(w[q]), m_)
+    return None
+
+
 def replay(r):
     rnd = random.Random(0)
+    if 'weights' in r.get('name', ''):
+        for direction, defo in (((0.7, 0.1, 0.2), None), ((0.2, 0.1, 0.7), 'XZZX'), ((1 / 3, 1 / 3, 1 / 3), None), ((0.8, 0.1, 0.1), 'XY')):
+            for prate in (0.05, 0.2, 0.45, 0.7):
+                why = native_weights(direction, defo, prate)
+                if why:
+                    return dict(confirmed=True, input=dict(direction=list(direction), deformation=defo, error_rate=prate, weights=True), detail=why)
     for cname, size in (('Toric2DCode', (2, 3)), ('Planar2DCode', (2, 3)), ('RotatedPlanar2DCode', (3, 3))):
         for direction, defo in (((0.7, 0.1, 0.2), None), ((0.2, 0.1, 0.7), 'XZZX'), ((1 / 3, 1 / 3, 1 / 3), None)):
             why = native_optimal(cname, size, direction, defo, 0.2, rnd, 10)
@@ -116,7 +142,9 @@ def replay(r):
 
 def replay_file(data):
     inp = data.get('input') or {}
-    if 'direction' in inp:
+    if inp.get('weights'):
+        why = native_weights(tuple(inp['direction']), inp.get('deformation'), inp.get('error_rate', 0.2))
+    elif 'direction' in inp:
         why = native_optimal(inp['code'], tuple(inp['size']), tuple(inp['direction']), inp.get('deformation'), 0.2, random.Random(0), 20)
     else:
         why, _ = native_correctable(inp.get('decoder', 'MatchingDecoder'), inp['code'], tuple(inp['size']), inp.get('maxw'))
